@@ -134,7 +134,9 @@ Proof.
   unfold mem. induction l as [|x r IH]; cbn [existsb count].
   - split; [discriminate|lia].
   - rewrite orb_true_iff, IH. rewrite (N.eqb_sym k x).
-    destruct (N.eqb x k); split; intros; try lia; auto. destruct H; [discriminate|assumption].
+    destruct (N.eqb x k).
+    + split; [lia|auto].
+    + split; [intros [H|H]; [discriminate|lia]|intros H; right; lia].
 Qed.
 
 Lemma mem_false_count k l : mem k l = false <-> count k l = 0.
